@@ -83,6 +83,19 @@ CHECKS = {
    design_ref='DESIGN.md section 6 / C19',
    technique='Coq proof (decision-tree argument over all comparison sorts; insertion-position-independent rejection) + conflict-injection correspondence',
    note=TB + " Assumed of sort.Slice: it is a deterministic comparison sort, correct on injective keys, comparing only indices in range."),
+ 'C08': dict(
+   text="PARTIAL. Machine-checked proof (Coq) that every modelled formatter (list txt/md/csv/json, diff txt/md/csv, byte-exact models) is a function of the multiset of result entries — for ANY correct sort, not only the model's — "
+        "and that sorting strings/rows is order-independent (transitivity of Coq's string order proved); together with C01/C02 (the report is the Spec), C11 canonical forms and the order-independent ANP list this makes the model's output a function of the resource set. "
+        "Real map-iteration schedules, the dot and exposure writers and Errors() order are only sampled: every world is analysed repeatedly per format unchanged / reordered / re-partitioned into files / with rules, peers, ports permuted, and all outputs must be byte-identical.",
+   design_ref='DESIGN.md section 6 / C08',
+   technique='Coq proof (permutation invariance of the format models for any correct sort) + repeated-run byte comparison under input permutations',
+   note=TB + " Partial: the theorem is about the model's explicit order parameter; the Go runtime's map order is sampled (Go randomises it per run). One defect (named-port-on-IP error depending on rule order) was repaired by a fix: commit."),
+ 'C09': dict(
+   text="PARTIAL. Byte-exact Gallina models of list txt/md/csv/json and diff txt/md/csv as functions of the analysis result, with machine-checked proofs that each lists every entry exactly once, that the row formats share their rows and that the printed connection is a function of the denoted set; "
+        "on every run the real formatter's bytes are compared with the model applied to the real API result, and every format incl. dot is parsed back to rows and compared with the API result and with every other format (list and diff).",
+   design_ref='DESIGN.md section 6 / C09',
+   technique='Coq format model (byte-exact) compared with the implementation + proofs of row exactness + parse-back of every format',
+   note=TB + " Partial: injectivity of the string rendering is not proved (covered by parse-back on generated results); encoding/json and encoding/csv are modelled on the alphabet the analysis produces; dot is parsed back only; exposure tables are covered by C06/C07's check."),
  'C11': dict(
    text="Machine-checked proof (Coq) that the Gallina mirror of ConnectionSet/PortSet denotes exactly the right (protocol,port) set under every operation, "
         "that the canonical form is unique (equal sets are identical and print identically), that the full set is flagged AllowAll, and that the canonical-form invariant "
